@@ -25,6 +25,10 @@ func (g *fastGenerator) genUnmarshalMethod() {
 	g.P("}")
 	g.P("options := ", runtimePackage.Ident("UnmarshalInputToOptions"), "(input)")
 	g.P("_ = options")
+	// input.Depth is the remaining message nesting budget (see protoiface.UnmarshalInput)
+	g.P("if input.Depth <= 0 {")
+	g.P(`return `, protoifacePkg.Ident("UnmarshalOutput"), "{NoUnkeyedLiterals: input.NoUnkeyedLiterals, Flags: input.Flags}, ", runtimePackage.Ident("ErrRecursionDepth"))
+	g.P("}")
 	g.P("dAtA := input.Buf")
 	// body
 	if required.Len() > 0 {
